@@ -181,7 +181,7 @@ def handleTokens (inp : List String) (obs : String) : Verdict :=
   | ["iseq", hdr, width, mol, id, desc, letters] =>
     match parseBool hdr, parseNat width, parseNat mol, bytesOfHex id, bytesOfHex desc, bytesOfHex letters with
     | some hdr, some width, some mol, some id, some desc, some letters =>
-      let wf := nameOK id && lettersOK letters && width ≥ 1 && mol ≤ 2 && !desc.contains 10 && noEndMarker width mol letters
+      let wf := nameOK id && lettersOK letters && width ≥ 1 && mol ≤ 2 && descOK desc && noEndMarker width mol letters
       let tags := ["inline-seq", s!"mol{mol}"] ++ (if wf then ["nt", "wf"] else ["not-wf"])
         ++ (if letters.length > width then ["wrapped"] else [])
       match Gff.writeSeq width mol id desc letters with
